@@ -17,7 +17,7 @@ for pid in all_ids:
         "evidence_file": "/verif/evidence/%s.json" % pid,
         "replay_cmd_template": "./check %s --replay {path}" % pid,
         "engine": "tla-tlc-trace",
-        "level_claimed": {"category": "model_checking", "text": t["level"], "design_ref": t.get("ref", "DESIGN.md section 6")},
+        "level_claimed": {"category": "model_checking", "text": t["level"], "design_ref": t.get("ref", "DESIGN.md section 5")},
         "level_note": t["note"],
         "technique": t["technique"],
     })
@@ -35,11 +35,11 @@ man = {
         "name": "tla-tlc-trace",
         "path": "/verif/spec",
         "serves_properties": [c["property_id"] for c in checks],
-        "kind_free_text": "explicit TLA+ specification (spec/*.tla) model-checked with TLC; bound to the Rust code by replaying TLC-enumerated cases through harness/tvh and validating the recorded event traces against spec/TraceTau.tla with TLC",
+        "kind_free_text": "explicit TLA+ specification (spec/*.tla) model-checked with TLC (one module, TauFold, also by Apalache as an inductive invariant); bound to the Rust code by replaying TLC-enumerated cases through harness/tvh and validating the recorded event traces against spec/TraceTau.tla with TLC",
     }],
     "checks": checks,
     "not_applicable": [{"property_id": p, "reason": "check not built yet in this revision (planned, see DESIGN.md section 6)"} for p in all_ids if p not in PROPS],
-    "notes": "All checks: ./check <id> --tier quick|thorough (tools/vcheck.py). Known findings: known_findings.json. Seeded mutants: seeded/.",
+    "notes": "All checks: ./check <id> --tier quick|thorough (tools/vcheck.py). Known findings: known_findings.json. Seeded changes and their regression: seeded/, tools/seedall.py, seeded/RESULTS.json.",
 }
 json.dump(man, open(os.path.join(VERIF, "MANIFEST.json"), "w"), indent=1)
 print("MANIFEST.json: %d checks, %d not applicable" % (len(checks), len(man["not_applicable"])))
